@@ -165,7 +165,7 @@ fn sample_json(sc: &Scenario) -> serde_json::Value {
     json!({
         "seed": sc.seed,
         "docs": sc.docs.iter().map(|d| vsim::util::excerpt(d.as_bytes(), 120)).collect::<Vec<_>>(),
-        "threads": sc.threads.iter().map(|t| t.iter().map(|c| format!("{}({}, w={}, tab={}, reorder={}{})", op_name(&c.op), if c.feed_prev { "result of the previous call".to_string() } else { format!("doc {}", c.doc) }, c.cfg.column, c.cfg.tab, c.cfg.reorder, if c.via_clone { ", via clone of the shared Typstyle" } else { "" })).collect::<Vec<_>>()).collect::<Vec<_>>(),
+        "threads": sc.threads.iter().map(|t| t.iter().map(|c| format!("{}({}, w={}, tab={}, reorder={}, blank={}{})", op_name(&c.op), if c.feed_prev { "result of the previous call".to_string() } else { format!("doc {}", c.doc) }, c.cfg.column, c.cfg.tab, c.cfg.reorder, c.cfg.blank, if c.via_clone { ", via clone of the shared Typstyle" } else { "" })).collect::<Vec<_>>()).collect::<Vec<_>>(),
         "policy": policy_name(&sc.policy),
         "abandons": sc.abandons.iter().map(|a| format!("thread {} call {} at its point {}", a.tid, a.call, a.point)).collect::<Vec<_>>(),
     })
@@ -822,7 +822,7 @@ fn soak_call(k: u64) -> (String, vsim::coresim::Call) {
         ORDINARY[(r >> 20) as usize % ORDINARY.len()]
     }
     .to_string();
-    let cfg = vsim::oracle::Cfg { column: [80usize, 20, 120][(r >> 32) as usize % 3], tab: 2, reorder: (r >> 40) % 5 == 0 };
+    let cfg = vsim::oracle::Cfg { column: [80usize, 20, 120][(r >> 32) as usize % 3], tab: 2, reorder: (r >> 40) % 5 == 0, blank: 2 };
     let op = match (r >> 48) % 10 {
         0..=5 => Op::Content,
         6..=8 => Op::Source,
